@@ -42,6 +42,11 @@
  * Number of entries in the per-thread defer queue. Must be power of 2.
  */
 #define DEFER_QUEUE_SIZE	(1 << 12)
+#ifdef URCU_VERIF
+#undef DEFER_QUEUE_SIZE
+#define DEFER_QUEUE_SIZE	\
+	((unsigned long) urcu_verif_knob(URCU_VERIF_KNOB_DEFER_QUEUE_SIZE, 1 << 12))
+#endif
 #define DEFER_QUEUE_MASK	(DEFER_QUEUE_SIZE - 1)
 
 /*
